@@ -20,7 +20,8 @@ type docLine struct {
 	Out  Out    `json:"out"`
 }
 
-// WriteReal runs the real writer; a panic, an error or a hang is an observation.
+// WriteReal runs the real writer; a returned error ("FAIL"), a panic ("PANIC") or a hang
+// ("TIMEOUT") is an observation.
 func WriteReal(sc gltf.PolyformScene, kind string) (data []byte, status, msg string) {
 	type res struct {
 		b      []byte
@@ -31,7 +32,7 @@ func WriteReal(sc gltf.PolyformScene, kind string) (data []byte, status, msg str
 	go func() {
 		defer func() {
 			if r := recover(); r != nil {
-				ch <- res{nil, "FAIL", fmt.Sprint("panic: ", r)}
+				ch <- res{nil, "PANIC", fmt.Sprint("panic: ", r)}
 			}
 		}()
 		var buf bytes.Buffer
@@ -55,17 +56,41 @@ func WriteReal(sc gltf.PolyformScene, kind string) (data []byte, status, msg str
 	}
 }
 
-// RunOne executes one descriptor for one container kind.
+// Container is the container a kind produces: "glb" | "text".  The kinds "glb-again" and
+// "text-again" hand the SAME scene objects to the writer a second time (first to the other
+// entry point, whose output is dropped) and observe the second file: whatever the first call
+// left behind in the scene (textures, materials, meshes) is carried into it.
+func Container(kind string) (container string, again bool) {
+	switch kind {
+	case "glb-again":
+		return "glb", true
+	case "text-again":
+		return "text", true
+	}
+	return kind, false
+}
+
+// RunOne executes one descriptor for one kind.
 func RunOne(c int, d Desc, kind string) docLine {
 	b := Build(d)
+	cont, again := Container(kind)
+	// projected BEFORE any call: the scene as its owner built it (a writer that edits the scene it
+	// is handed shows up as a second file that no longer denotes it)
 	line := docLine{K: "doc", C: c, Tag: d.Tag, Kind: kind, Src: ProjectScene(b.Scene)}
-	data, status, msg := WriteReal(b.Scene, kind)
+	if again {
+		other := "glb"
+		if cont == "glb" {
+			other = "text"
+		}
+		WriteReal(b.Scene, other)
+	}
+	data, status, msg := WriteReal(b.Scene, cont)
 	if status != "OK" {
 		line.Out = emptyOut(status, msg)
-		line.Out.Cont.Kind = kind
+		line.Out.Cont.Kind = cont
 		return line
 	}
-	line.Out = Parse(kind, data)
+	line.Out = Parse(cont, data)
 	return line
 }
 
@@ -120,7 +145,8 @@ func Dump(in string, kind, out string) error {
 	if err := json.Unmarshal(bytes.TrimSpace(b), &d); err != nil {
 		return err
 	}
-	data, status, msg := WriteReal(Build(d).Scene, kind)
+	cont, _ := Container(kind)
+	data, status, msg := WriteReal(Build(d).Scene, cont)
 	if status != "OK" {
 		return fmt.Errorf("%s: %s", status, msg)
 	}
